@@ -250,6 +250,8 @@ func (m *Manager[T]) scan(id string) error {
 
 		if err != nil {
 			log.Printf("Error starting client %v: %v", n, err)
+			// try again at the next scan
+			continue
 		}
 
 		go func() {
